@@ -14,6 +14,10 @@ CLAIMS = {
    technique="typestate extraction: abstract path exploration of the thread handlers over the finite (thread_state x event) domain, compared with the documented FSM; error-propagation analysis to main",
    text="Exhaustive over the abstract domain: pre_thread() is explored (thread.c inlined, infrastructure calls non-deterministic) for all 256 value bytes x 6 thread states; accept/reject and the post-state of every accepting path are compared with the documented state machine; thread_set_state's published view (is_running, is_active, state and TID channels) is evaluated for all 6 states; model_ovni_finish is evaluated on all 1- and 2-thread state combinations and its failure is followed call site by call site to main's exit status. Not decided: that the timeline shows the state at every instant (depends on patch-bay propagation, see C06).",
    design_ref="§4 C04"),
+ "C14": dict(
+   technique="exhaustive abstract evaluation of the version predicates over {0,1,2}^6 and of the enable/event gating functions over their finite outcome domains (clang CFG path exploration)",
+   text="version_is_compatible and the open-coded test in ovni_version_check_str are evaluated from their CFGs on all 729 (want,have) triples over {0,1,2} (every ordering of major/minor/patch) and must equal the semver relation; should_enable, model_version_probe (0-2 threads x {-1,0,1}), model_probe ({-1,0,1} x enable_all) and model_event (registered x enabled x hook result) are evaluated over their complete finite outcome domains; each model's probe must use its own spec; every version_parse result must be tested. Not decided: version_parse's handling of malformed strings (strtol semantics).",
+   design_ref="§4 C14"),
  "C18": dict(
    technique="abstract interpretation of handler dispatch over all 65536 (category,value) codes per model vs. the constant event catalogue (clang AST/CFG facts)",
    text="Exhaustive over the finite code space: for each of the 8 models the set of (c,v) codes the event hook can accept is computed exactly from the CFGs and constant tables and compared with the declared catalogue in both directions; declared payload shapes are bound to ev->payload_size/is_jumbo and every declared event must still be accepted and every constant-offset payload read must lie inside the declared payload; catalogue self-consistency is evaluated with ev_spec.c's grammar. Not decided: ovnidump's formatted output for all argument values.",
